@@ -132,6 +132,7 @@ class Repo:
             if shp:
                 for rel, modname, is_pkg, src, tree in parsed:
                     self.inline_log.extend(localnames.reorient(tree, modname, shp))
+                    self.inline_log.extend(localnames.contract(tree, modname, shp))
             kg = inline.load_known_globals()
             if kg:
                 trees = [t for _, _, _, _, t in parsed]
